@@ -437,6 +437,13 @@ def oracle_c11(case, steps):
             if aid in prev_probes and st['probes'][aid] != prev_probes[aid]:
                 return ('%s: responses of application %s changed although it was not the (successful) target' % (what, aid),
                         'failed-op-not-identity' if st['obs'] != 'ok' else 'frame')
+        if st['obs'] == 'ok' and op[0] == 'new' and 'flat' in st and all(e[0] == 'route' for e in op[2]):
+            # an application made of plain routes only: Route objects that were bound before (into other applications, under
+            # other slash modes) must serve exactly like freshly made ones
+            for a, b2 in zip(st['probes'][tid], st['flat']):
+                if a != b2:
+                    return ('%s: %s %s on application %s answers %s; with freshly made Route objects of the same declaration %s'
+                            % (what, a[0], a[1], tid, a[2:], b2[2:]), 'earlier-binding-influences')
         if st['obs'] == 'ok' and op[0] in ('add', 'embed') and tid in prev_world:
             old = [r[:2] for r in prev_world[tid]]
             new = [r[:2] for r in st['world'][tid]]
@@ -579,6 +586,43 @@ def gen_case(rng, tier):
     return Gen(rng).case(tier)
 
 
+def directed_cases():
+    """two small systematic families that random generation reaches only rarely:
+    (A) a route whose render argument is resolved by a factory, three applications deep, for every combination
+        of factory presence per level and of the two rebind_render flags;
+    (B) ONE Route object bound into two applications with different slash modes (same full pattern)."""
+    out = []
+
+    def env(i, factory, mode='redirect'):
+        return {'id': i, 'resources': [], 'mws': [], 'mode': mode, 'handler': 1, 'factory': factory}
+
+    def decl(key, pattern, render, mode='redirect'):
+        return {'key': key, 'pattern': pattern, 'mode': mode, 'methods': None, 'mws': [], 'resources': [], 'needs': [],
+                'render': render}
+    for f_top in (None, 1, 2):
+        for f_mid in (None, 1, 2):
+            for f_home in (None, 1, 2):
+                for rb_top in (False, True):
+                    for rb_mid in (False, True):
+                        home = [['route', decl(1, '/tmpl', ['arg', 't1']), True], ['route', decl(2, '/own', ['callable', 1]), True]]
+                        mid = [['sub', '/m', env(3, f_home), home, rb_mid, True]]
+                        top = [['sub', '/o', env(2, f_mid), mid, rb_top, True]]
+                        out.append({'ops': [['new', env(1, f_top), top]]})
+    k = 10
+    for m1 in MODES:
+        for m2 in MODES:
+            if m1 == m2:
+                continue
+            for pat in ('/a', '/c/<y>/', '/g/<w:int>/'):
+                for inh1 in (True, False):
+                    k += 1
+                    d = decl(k, pat, None, mode=m2 if not inh1 else 'redirect')
+                    out.append({'ops': [['new', env(1, None, m1), [['route', d, inh1]]],
+                                        ['new', env(2, None, m2), [['route', d, True]]],
+                                        ['new', env(3, None, m1), [['route', d, True]]]]})
+    return out
+
+
 def shrink(case):
     prop = case.get('_prop', 'C11')
     orc = ORACLES[prop]
@@ -599,7 +643,7 @@ def run(prop, rep, b, tier, seed, only_cases=None):
     rep.shrink_module = 'worldprops_worker'
     rng = random.Random(seed * 86028121 + 10)
     corpus = [c['case'] if 'case' in c else c for c in core.load_corpus(prop) + core.load_corpus('world')]
-    cases = list(only_cases) if only_cases is not None else corpus + [gen_case(rng, tier) for _ in range(400 if tier == 'quick' else 3000)]
+    cases = list(only_cases) if only_cases is not None else corpus + directed_cases() + [gen_case(rng, tier) for _ in range(400 if tier == 'quick' else 3000)]
     for c in cases:
         c['_prop'] = prop
     rep.rule = ('worldlab: histories of %s operations {construct application with up to 3 entries per level and inline embedded '
@@ -608,7 +652,7 @@ def run(prop, rep, b, tier, seed, only_cases=None):
                 'error handlers, 2 render factories), add route / sub-application at an index (None, in range, negative, out of '
                 'range), embed a live application in another, failing entries (unresolved dependency, bad pattern; possibly as the '
                 'k-th route of an embedded application; unique non-reorderable middleware twice), one Route object bound into '
-                'several applications}; after EVERY operation every live application is snapshotted (per bound route: pattern, '
+                'several applications; plus two systematic families: a factory-resolved renderer three applications deep under every combination of factory presence and rebind flags (108), and one Route object bound into applications of different slash modes (36)}; after EVERY operation every live application is snapshotted (per bound route: pattern, '
                 'slash mode, middleware instances, resources, renderer, error handler, bound_apps) and probed with GET/POST on paths '
                 'derived from its patterns (incl. non-canonical and unknown ones); compared with Model/World.v and with the '
                 'oracles. non-trivial = histories with an embedding or a failing operation.'
